@@ -1,14 +1,15 @@
 SPECIFICATION Spec
 CONSTANTS
-  Users <- MCUsers3
-  Progs <- MCProgs3
+  Users <- MCUsers
+  Progs <- MCProgs
   W = 2
   Locked = TRUE
-  Login = FALSE
+  Login = TRUE
   SwapUnderLock = TRUE
 INVARIANT FramesContiguous
 INVARIANT ExactlyOnce
 INVARIANT QueuedFifo
 INVARIANT FlushBeforeClose
 INVARIANT NothingAfterImmediate
+INVARIANT NoPlaintextAfterEncResponse
 PROPERTY SendOnlyUnderLock
